@@ -323,6 +323,7 @@ impl Exec {
         self.model.now = new_now;
         self.clock.set(nanos as u64);
         self.stats.advances += 1;
+        self.sweeper_pinned = false;
         self.release_sweeper();
         if self.cfg.tick_us > 100_000 { return Ok(()); }
         self.wait_sweep()?;
@@ -452,6 +453,28 @@ impl Exec {
                     }
                 }
                 Ok(())
+            }
+            Op::ExpiredWrite { k, past_ms, write } => {
+                let usable = |model: &Model| model.held.get(k).and_then(|entry| if entry.soft_deleted { None } else { entry.deadline }).filter(|deadline| *deadline > model.now && deadline.as_nanos() < (u64::MAX / 4) as u128);
+                if usable(&self.model).is_none() && !self.model.held.contains_key(k) {
+                    self.exec_op(&Op::Put { k: *k, w: Some(WSel::Abs(7)), ttl: Some(TtlSel::Secs(2)) })?;
+                }
+                let Some(deadline) = usable(&self.model) else { return self.quiescent_checks("C10"); };
+                if self.cfg.tick_us > 100_000 { return self.quiescent_checks("C10"); }
+                self.hold_sweeper();
+                let target = deadline + Duration::from_millis(1 + *past_ms as u64);
+                self.model.now = target;
+                self.clock.set(target.as_nanos() as u64);
+                self.stats.advances += 1;
+                self.stats.expired_unswept_writes += 1;
+                let retargeted = match (**write).clone() { Op::Put { w, ttl, .. } => Op::Put { k: *k, w, ttl }, Op::Upsert { value, w, ttl, .. } => Op::Upsert { k: *k, value, w, ttl }, _ => Op::Delete { k: *k } };
+                self.sweeper_pinned = self.sweeper_held;
+                let written = self.exec_op(&retargeted);
+                self.sweeper_pinned = false;
+                written?;
+                self.exec_op(&Op::SweepRotation)?;
+                for kind in READ_KINDS { self.exec_read(kind, &[*k])?; }
+                self.quiescent_checks("C10")
             }
             Op::DeadlineWalk { k } => {
                 let deadline = self.model.held.get(k).and_then(|entry| entry.deadline);
@@ -589,7 +612,10 @@ impl Exec {
         let pending = std::mem::take(&mut self.pending);
         self.complete_pending(pending, None)?;
         let used = self.cache.total_weight_used();
-        ensure!(used >= 0 && used <= self.cfg.max_weight, "C01", "C01/release/out-of-bounds", "total_weight_used() = {} outside [0, {}] right after the queued burst was applied", used, self.cfg.max_weight);
+        if used < 0 || used > self.cfg.max_weight {
+            let failure = Failure::new("C01", "C01/release/out-of-bounds", format!("total_weight_used() = {} outside [0, {}] right after the queued burst was applied", used, self.cfg.max_weight));
+            if self.policy.allow_over_limit_upsert && self.policy.note_over_limit && used as i128 == self.model.used() && used > 0 { if self.deferred.is_none() { self.deferred = Some(failure); } } else { return Err(failure); }
+        }
         Ok(())
     }
 
